@@ -230,6 +230,26 @@ def check(spec, ctx):
             ctx.fail("buffer_geometry(geometry, tb, fb) with positional buffers differs from the keyword call", spec, None, None, kind="positional")
     except Exception as e:
         ctx.fail(f"buffer_geometry(geometry, {tb}, {fb}) with positional buffers raised {type(e).__name__} although the keyword call returned", spec, repr(e)[:200], None, kind="positional")
+    # a zero buffer written as -0.0 (what round(-0.3) or -1 * 0.0 give) is the zero buffer
+    if tb == 0 or fb == 0:
+        ntb, nfb = (-0.0 if tb == 0 else tb), (-0.0 if fb == 0 else fb)
+        try:
+            if geometry.buffer_geometry(g, time_buffer=ntb, freq_buffer=nfb) != results[0]:
+                ctx.fail(f"buffer_geometry with the zero buffer written as -0.0 ({ntb}, {nfb}) differs from the call with 0.0", spec, None, None, kind="negative_zero")
+        except Exception as e:
+            ctx.fail(f"buffer_geometry({kind}, {ntb}, {nfb}) raised {type(e).__name__} although ({tb}, {fb}) is buffered", spec, repr(e)[:200], None, kind="negative_zero")
+        ctx.label("negative_zero_buffer")
+    # two calls running in two threads, this one suspended at lines inside the library while the other buffers by other amounts
+    b1_, b2_ = spec["b1"], spec["b2"]
+    if list(b1_) != list(b2_):
+        ctx.interleave(
+            spec,
+            f"buffer_geometry({kind})",
+            lambda: geometry.buffer_geometry(g, time_buffer=b1_[0], freq_buffer=b1_[1]),
+            lambda: geometry.buffer_geometry(g, time_buffer=b2_[0], freq_buffer=b2_[1]),
+            every=5,
+            max_pauses=32,
+        )
     # omitted buffers mean 0
     if scale_ratio(spec) < 1e6 or kind in ("TimeStamp", "TimeInterval", "BoundingBox"):
         try:
